@@ -231,7 +231,7 @@ package op
 // ---- printed forms read back (C10) ----
 
 //@ func lemmaC10Key returns (x, err)
-//@   inlines op.Key.String
+//@   inlines op.Key.String, note.Name.String, op.Accidental.String
 //@   requires validKey(k)
 //@   ensures err == nil && x == k
 
@@ -301,3 +301,17 @@ package op
 //@   loop 0 modifies scales
 //@   loop 0 invariant i == rangecount() && 0 <= i && i <= len(scales)
 //@   loop 0 invariant forall(j, 0, i, scales[j] != nil)
+
+// what is printed for a scale note and for a diatonic chord: the note as spelled in the scale, then the symbol (C17)
+//@ func ScaleNote.String returns (s)
+//@   pure
+//@   ensures s == nameStr(n.Name) + accStr(n.Accidental)
+
+//@ func DiatonicChord.String returns (s)
+//@   pure
+//@   requires dc.Note != nil
+//@   ensures s == nameStr(dc.Note.Name) + accStr(dc.Note.Accidental) + dc.Name
+
+//@ func Accidental.String returns (s)
+//@   pure
+//@   ensures s == accStr(a)
